@@ -294,6 +294,15 @@ def build_real_files(ctx, torch):
             return torch.nn.functional.gelu(x)
     files["jit-gelu"] = os.path.join(d, "model_jit_gelu.pt")
     torch.jit.save(torch.jit.script(G()), files["jit-gelu"])
+    # a checkpoint written with torch's CRC-32 computation switched off (a documented speed option): the records carry
+    # CRC 0, which torch's reader does not look at and Python's zipfile rejects on read
+    if hasattr(torch.serialization, "set_crc32_options"):
+        files["zip-nocrc"] = os.path.join(d, "model_zip_nocrc.pth")
+        torch.serialization.set_crc32_options(False)
+        try:
+            torch.save(m.state_dict(), files["zip-nocrc"])
+        finally:
+            torch.serialization.set_crc32_options(True)
     files["tar"] = os.path.join(d, "model_legacy_tar.pth")
     torchfiles.legacy_tar(files["tar"], d)
     files["mar"] = os.path.join(d, "model.mar")
